@@ -22,12 +22,12 @@ import (
 // C08: reusing a knowledge-base instance behaves like using a fresh one.
 
 type c08Step struct {
-	Op       string       `json:"op"`
-	Init     *facts.State `json:"facts"`
-	MaxCycle uint64       `json:"max_cycle"`
-	ErrOnFail bool        `json:"err_on_fail"`
-	FailAt   int          `json:"probe_fail_at,omitempty"`
-	FailMode int          `json:"probe_fail_mode,omitempty"`
+	Op        string       `json:"op"`
+	Init      *facts.State `json:"facts"`
+	MaxCycle  uint64       `json:"max_cycle"`
+	ErrOnFail bool         `json:"err_on_fail"`
+	FailAt    int          `json:"probe_fail_at,omitempty"`
+	FailMode  int          `json:"probe_fail_mode,omitempty"`
 }
 
 type c08Case struct {
